@@ -1,14 +1,16 @@
 package main
 
 import (
-	"golang.org/x/tools/go/cfg"
 	"go/ast"
 	"go/token"
 	"go/types"
+	"golang.org/x/tools/go/cfg"
 	"strings"
 )
 
-func init() { lateInits = append(lateInits, func() { props["C13"].Quick = append(props["C13"].Quick, c13R10) }) }
+func init() {
+	lateInits = append(lateInits, func() { props["C13"].Quick = append(props["C13"].Quick, c13R10) })
+}
 
 // C13.R10: an error value that has not been examined is not overwritten by a value that may be nil.
 // (Reported failure must survive until it is returned or tested: "exits with status 0 exactly when no error".)
@@ -176,7 +178,9 @@ func c13R10(c *Ctx, r *Report) {
 	r.Note("%s: %d error variables with two or more assignments analysed", rule, nVars)
 }
 
-func init() { lateInits = append(lateInits, func() { props["C13"].Quick = append(props["C13"].Quick, c13R11) }) }
+func init() {
+	lateInits = append(lateInits, func() { props["C13"].Quick = append(props["C13"].Quick, c13R11) })
+}
 
 // C13.R11: results of parser functions that can return nil are not dereferenced before a nil test.
 func c13R11(c *Ctx, r *Report) {
